@@ -264,7 +264,7 @@ pub fn run(ctx: &mut Ctx) {
     for (n, ok) in r9::selftest(false) {
         ctx.selftest(&n, ok);
     }
-    ctx.require(&["annex_kat", "fixed_r_exact", "free_r", "ref_made_accepted", "bitflip_h", "bitflip_h_ge_N", "bitflip_S", "h=0", "h=N-1", "h=N", "h=2^256-1", "h+N_alias", "S=-S", "S=offcurve_y_plus_1", "S=(0,0)", "S=infinity", "S_rerandomised_Z", "msg_changed", "id_changed", "master_key_changed", "msg_empty", "id_empty", "ks=H1(id)_doubling_in_verify", "verifier_has_public_key_only", "interleaved_master_keys_same_id", "id_beyond_2^16_bits", "msg_beyond_2^16_bits", "id_changed_beyond_8191_bytes", "many_calls_one_process", "interleaved_opposite_master_keys", "id_msg_length_sweep", "key_extraction_reads_one_table_entry"]);
+    ctx.require(&["annex_kat", "fixed_r_exact", "free_r", "ref_made_accepted", "bitflip_h", "bitflip_h_ge_N", "bitflip_S", "h=0", "h=N-1", "h=N", "h=2^256-1", "h+N_alias", "S=-S", "S=offcurve_y_plus_1", "S=(0,0)", "S=infinity", "S_rerandomised_Z", "msg_changed", "id_changed", "master_key_changed", "msg_empty", "id_empty", "ks=H1(id)_doubling_in_verify", "verifier_has_public_key_only", "interleaved_master_keys_same_id", "id_beyond_2^16_bits", "msg_beyond_2^16_bits", "id_changed_beyond_8191_bytes", "many_calls_one_process", "interleaved_opposite_master_keys", "id_msg_length_sweep", "key_extraction_reads_one_table_entry", "id_with_nul_bytes"]);
     let pr = r9::params();
     // --- Annex example
     if ctx.shard == 0 {
@@ -316,6 +316,22 @@ pub fn run(ctx: &mut Ctx) {
         }
         if i % 16 == 0 {
             ctx.sample(json!({"sign_case": wit(&ks, &id, &msg, Some(&r))}));
+        }
+    }
+    // --- identities containing NUL bytes, trailing blanks or newlines, non-UTF-8 bytes (hashed exactly as given)
+    {
+        let mut pl = ctx.prng("nul_ids");
+        for (k, id) in [b"Bob\0".to_vec(), b"\0Bob".to_vec(), b"Bo\0b".to_vec(), vec![0u8], vec![0u8; 4], b"Bob\0\0".to_vec(), b"Bob ".to_vec(), b" Bob".to_vec(), b"Bob\n".to_vec(), vec![0xffu8, 0xfe, 0x80]].iter().enumerate() {
+            let sub = pl.next();
+            if !ctx.mine(k as u64) {
+                continue;
+            }
+            let mut p = Prng::new(sub, "ni");
+            let ks = rand_scalar(&mut p, &(&pr.n - 1u32));
+            let r = rand_scalar(&mut p, &(&pr.n - 1u32));
+            let msg = p.bytes(21);
+            ctx.class("id_with_nul_bytes");
+            sign_case(ctx, &ks, id, &msg, Some(&r), "id_with_nul_bytes");
         }
     }
     // --- identity lengths 0..=130 and message lengths 0..=130 (hash input lengths of H1 and H2 take every residue modulo the
